@@ -29,6 +29,9 @@ T = {
  "C08": ("property-based testing (byte-stream PBT, refint square-and-multiply oracle) + libFuzzer in thorough",
          "Generated-input search over mpz_powm/powm_ui (bases of every sign and size, exponent bit patterns for every window width, moduli odd / even with any 2-adic valuation incl. zero low limbs / powers of two / +-1, sizes around the REDC and POWM crossovers, negative exponents with invertible base) and mpz_pow_ui/ui_pow_ui (0^0, +-1, +-2^k, negative bases); results are compared with an independent square-and-multiply on the reference bignum. Exploration with an exact executable oracle.",
          "DESIGN.md section 5 C08"),
+ "C12": ("property-based testing (byte-stream PBT, planted common factors, refint fraction oracle compared as a pair) + libFuzzer in thorough",
+         "Generated-input search over mpq arithmetic (add/sub/mul/div/inv/neg/abs/mul_2exp/div_2exp, every alias pattern), canonicalize and the exact conversions (set_d/set_f/set_z/set_si/set_ui): canonical operands with planted common factors between denominators and cross terms so every gcd branch is taken; each result must equal the refint-reduced exact fraction as a pair (positive denominator, coprime, 0/1). Both the inline functions of mpir.h and the out-of-line library copies are exercised. Exploration with an exact executable oracle.",
+         "DESIGN.md section 5 C12"),
 }
 built = [i for i in ids if i in T and os.path.exists(os.path.join(ROOT, "props", i + ".cc")) or os.path.exists(os.path.join(ROOT, "props", i + "_run.py"))]
 checks = []
